@@ -18,6 +18,10 @@ class TaskError(Exception):
     pass
 
 
+class TaskInterrupt(KeyboardInterrupt):
+    """a task that ends by an exception that is not an Exception (KeyboardInterrupt / SystemExit in remote code)"""
+
+
 def run_pool(program: dict, chooser, post_yields=False, max_steps=4000):
     s = Sched(chooser, max_steps=max_steps, post_yields=post_yields)
     backend = "main_thread_only" if program["mto"] else "thread"
@@ -44,7 +48,7 @@ def run_pool(program: dict, chooser, post_yields=False, max_steps=4000):
             ended.add(tid)
             ev("task_end", task=tid, flag=raises)
             if raises:
-                raise TaskError(tid)
+                raise (TaskInterrupt if tid in program.get("raising_base", ()) else TaskError)(tid)
             return tid * 100
 
         body.taskid = tid
@@ -100,7 +104,7 @@ def run_pool(program: dict, chooser, post_yields=False, max_steps=4000):
         try:
             v = r.get(timeout)
             ev("ret", "get", tid, who, "value", flag=(v == tid * 100))
-        except TaskError as e:
+        except (TaskError, TaskInterrupt) as e:
             ev("ret", "get", tid, who, "raised", flag=(e.args == (tid,)))
         except OSError:
             ev("ret", "get", tid, who, "OSError")
@@ -144,6 +148,12 @@ def run_pool(program: dict, chooser, post_yields=False, max_steps=4000):
                 raise
             ev("ret", "waitall", who=w, res=type(e).__name__)
 
+    def poller():
+        # what the STATUS message handler does (gateway.remote_status()): it asks the pool how many tasks are active, at any moment
+        for _ in range(program.get("status_polls", 0)):
+            pool.active_count()      # (no event of its own: what is judged is that the pool's threads and replies are undisturbed)
+            s.yield_(("poll", "st"))
+
     for sp in program["spawners"]:
         s.spawn(sp, spawner, (sp,))
     if program["hasprimary"]:
@@ -152,6 +162,8 @@ def run_pool(program: dict, chooser, post_yields=False, max_steps=4000):
         s.spawn("sh", shutter)
     for w in program["waiters"]:
         s.spawn(w, waiter, (w, w in program.get("timed", ())))
+    if program.get("status_polls"):
+        s.spawn("st", poller)
     outcome = s.run()
     if outcome == "done":
         s.observe("end", op="", task=0, who="", res="", flag=False)
